@@ -98,7 +98,9 @@ def draw_plan(rng: random.Random, prop: str, methods=None) -> dict:
     max_h = gen.r3(min_h + rng.uniform(5.0, 150.0))
     nlo, nhi = gen.lot_capacity(geom)
     cap = None
-    if method in RECT_FAMILY and rng.random() < 0.5:
+    if (method in RECT_FAMILY and rng.random() < 0.5) or (method == "BIRECTANGLECONSTRAINED" and rng.random() < 0.3):
+        # (for the polygon-constrained search only the exception discipline is asserted: the cap clause of the statement
+        # names the near-square and rectangular-family searches)
         cap = rng.choice([2, 3, 4, rng.randint(2, max(3, nhi)), rng.randint(2, max(3, nhi + 5))])
     cont = rng.random() < 0.5
     ugt = gen.r3(rng.uniform(8.0, 20.0))
